@@ -28,11 +28,13 @@ def run(ctx, rep):
     T = emit.Types(ctx.astq)
     rep.section(t1, ctx, rep, T)
     rep.section(t2, ctx, rep, T)
+    rep.section(t9, ctx, rep, T)
     rep.section(t3, ctx, rep, T)
     rep.section(t45, ctx, rep, T)
     rep.section(t6, ctx, rep, T)
     rep.section(t8, ctx, rep, T)
     rep.section(wiring.backend_wiring, ctx, rep, 'T7', only_fields={'type_mappings'})
+    rep.section(t7_unchanged, ctx, rep)
 
 
 def t8(ctx, rep, T):
@@ -106,6 +108,109 @@ def t1(ctx, rep, T):
         if 'Vec' in shapes and 'Slice' in shapes:
             norm = lambda outs: sorted(re.sub(r'⟦[^⟧]*⟧', 'T', o) for o in outs)
             rep.check(norm(shapes['Vec']) == norm(shapes['Slice']), 'T1', f'{be}:sequence-constructor', f"Vec and slice both → {norm(shapes['Vec'])}", f"{be}: Vec renders as {norm(shapes['Vec'])} but &[T] as {norm(shapes['Slice'])} — sequences must share one target constructor", {'file': f['file'], 'line': f['line']})
+
+
+def shape_test_variants(ctx, t, payload_ok):
+    """If `t` is a test of the *shape* of an IR type value (a `matches!` on it, an `is_*()` method of RustType, a local
+    boolean helper whose result is such a `matches!`) return the set of SpecialRustType variant names it accepts; else None."""
+    t = vt.unvar(t)
+    if not isinstance(t, dict):
+        return None
+    if t.get('k') == 'matches' and payload_ok(t.get('scrut')):
+        return {m_ for v in t.get('variants', []) for m_ in re.findall(r'SpecialRustType::(\w+)', v)} or None
+    if t.get('k') == 'call':
+        subj = t.get('recv') if t.get('recv') is not None else (t['args'][0] if t.get('args') else None)
+        if subj is None or not payload_ok(subj):
+            return None
+        name = str(t.get('f', '')).split('::')[-1]
+        cands = [g for g in ctx.astq['functions'] if g['name'].split('::')[-1] == name and (g.get('ret') or '').replace(' ', '') == 'bool'
+                 and (g['file'].endswith('rust_types.rs') or g['file'].endswith('go.rs') or '/language/' in g['file'])]
+        for g in cands:
+            tail = vt.unvar(g.get('tail'))
+            if isinstance(tail, dict) and tail.get('k') == 'matches':
+                vs = {m_ for v in tail.get('variants', []) for m_ in re.findall(r'SpecialRustType::(\w+)', v)}
+                if vs:
+                    return vs
+    return None
+
+
+def t9(ctx, rep, T):
+    """T9: a backend may leave out its Option marker for some inner types only when those types are nullable by themselves in
+    the target (Go: slices and maps).  The condition under which the marker-less alternative of the Option arm is chosen must
+    contain a shape test of the inner type, and every variant that test accepts must render — in this backend's own arm for
+    that variant — as a nullable form."""
+    NULLABLE_PREFIX = {'go': ('[]', 'map[', '*')}
+    for be, (struct, file) in emit.BACKENDS.items():
+        f = ctx.fn(f'{struct}::format_special_type', file=file)
+        arms = {v.split('::')[1]: a for m in f['matches'] for a in m['arms'] for v in a['variants'] if v.startswith('SpecialRustType::')}
+        oa = arms.get('Option')
+        if oa is None or oa['value'].get('k') == 'big':
+            continue
+
+        def payload_ok(x):
+            x = vt.unvar(x)
+            while isinstance(x, dict) and x.get('k') in ('ref', 'deref', 'paren') or (isinstance(x, dict) and x.get('k') == 'call' and x.get('f') in ('as_ref', 'deref', 'borrow') and x.get('recv') is not None):
+                x = vt.unvar(x.get('v') if x.get('k') != 'call' else x.get('recv'))
+            return isinstance(x, dict) and x.get('k') == 'payload' and str(x.get('variant', '')).endswith('SpecialRustType::Option')
+        for x in vt.walk(oa['value']):
+            if x.get('k') != 'cond':
+                continue
+            tl, el = vt.unvar(x.get('t')), vt.unvar(x.get('e'))
+            if not (isinstance(tl, dict) and isinstance(el, dict) and tl.get('k') == 'lit' and el.get('k') == 'lit'):
+                continue
+            empty_is_then = tl.get('v') == '' and el.get('v') != ''
+            empty_is_else = el.get('v') == '' and tl.get('v') != ''
+            if not (empty_is_then or empty_is_else):
+                continue
+            site = {'file': f['file'], 'line': oa['line']}
+            c = vt.unvar(x.get('c'))
+            neg = empty_is_else
+            terms = []
+
+            def conj(v):
+                v = vt.unvar(v)
+                if isinstance(v, dict) and v.get('k') == 'op' and v.get('op') == '&&':
+                    for a_ in v['args']:
+                        conj(a_)
+                elif isinstance(v, dict) and v.get('k') == 'paren':
+                    conj(v.get('v'))
+                else:
+                    terms.append(v)
+            conj(c)
+            if neg:
+                rep.fail('T9', f'{be}:option-marker-dropped', f"{be}: the Option arm omits its marker `{tl.get('v')}` when `{vt.show(c)[:70]}` is false — shape not modelled as a restriction of the inner type", site)
+                continue
+            accepted = None
+            for t in terms:
+                vs = shape_test_variants(ctx, t, payload_ok)
+                if vs is not None:
+                    accepted = vs if accepted is None else (accepted & vs)
+            if accepted is None:
+                rep.fail('T9', f'{be}:option-marker-dropped', f"{be}: the Option arm omits its marker `{el.get('v')}` under `{vt.show(c)[:80]}`, which does not restrict the inner type: Option<T> and T then translate to the same target type for every T (the Option layer is lost)", site)
+                continue
+            bad = []
+            for v in sorted(accepted):
+                va = arms.get(v)
+                outs = []
+                if va is not None and va['value'].get('k') != 'big':
+                    R = guards.Renderer(T, {}, type_hook=lambda c_: ['T'])
+                    outs = sorted(set(R.render(va['value'])))
+                if not outs or not all(o.startswith(NULLABLE_PREFIX.get(be, ())) for o in outs):
+                    bad.append((v, outs[:2]))
+            b0 = bad[0][0] if bad else ''
+            rep.check(not bad, 'T9', f'{be}:option-marker-dropped', f'marker omitted only for {sorted(accepted)}, all nullable by themselves', f"{be}: the Option arm omits its marker `{el.get('v')}` for inner types {sorted(accepted)}, but {', '.join(f'{v} renders as {o}' for v, o in bad)} — not a nullable form in the target, so Option<{b0}<..>> and {b0}<..> become the same type and the Option layer is lost", site)
+
+
+def t7_unchanged(ctx, rep):
+    """T7: the mapping table reaches its backend as written in the configuration file — no statement of the CLI rewrites
+    (normalises, filters, merges) a `type_mappings` table between loading and use; look-ups are by the exact Rust spelling."""
+    from .. import cg
+    prog = cg.Program(ctx.mirq('all'))
+    muts = [m for m in wiring.config_mutations(ctx, prog) if m[2] == 'type_mappings']
+    for fid, owner, fname, st, file, line in muts:
+        rep.fail('T7', f"type_mappings-rewritten:{fid.split('::{closure')[0].split('::')[-1]}:{owner.split('::')[-1]}", f"{fid} rewrites {owner.split('::')[-1]}.type_mappings (`{st[:80]}`): the keys are compared with the printed Rust type (`Vec<Pair<String, u32>>` keeps its blank), so a rewritten key no longer matches and the mapping is silently ignored", {'file': file, 'line': line})
+    if not muts:
+        rep.ok('T7', 'type_mappings-unchanged', 'no statement of the CLI crate writes into a type_mappings table')
 
 
 def t2(ctx, rep, T):
@@ -202,6 +307,14 @@ def t3(ctx, rep, T):
     for qual, callee in (('SpecialRustType::contains_type', 'contains_type'), ('SpecialRustType::parameters', None)):
         f = ctx.fn(qual, file='rust_types.rs')
         coverage.check_recursion(rep, 'T3', ctx, f, 'SpecialRustType', [callee] if callee else [], qual, uses_ok=(callee is None))
+    # the reference rewriter is a sibling traversal too (shared with C09 N3): a container it does not descend into keeps the
+    # un-renamed spelling of the types inside it, so the translated type expression names a type that is not defined
+    from . import c09
+    sub = core.Report('C05', rep.tier)
+    c09.n3(ctx, sub)
+    for o in sub.obligations:
+        if o['rule'] == 'N3' and 'check_type:' in o['key'] and 'id-rewritten' not in o['key']:
+            rep.obligations.append(dict(o, rule='T3', key='T3:' + o['key'].split(':', 1)[1]))
     f = ctx.fn('RustType::contains_type', file='rust_types.rs')
     ms = coverage.find_matches(f, 'RustType') or [m for m in f['matches']]
     ga = None
